@@ -229,7 +229,26 @@ def main(argv=None):
                     inconclusive.append((r["case"], dict(label=v["label"], why="solver model did not reproduce on the real code: " + msg, replay=path)))
         # translator validation mismatches (a goal failure on a clause that is a known finding is the finding itself)
         mm = []
-        for x in r.get("validate", {}).get("mismatch", []):
+        allmm = r.get("validate", {}).get("mismatch", [])
+        both = {(x.get("label"), json.dumps(x.get("values"), sort_keys=True, default=str)) for x in allmm if x.get("kind") == "const-goal"} & \
+               {(x.get("label"), json.dumps(x.get("values"), sort_keys=True, default=str)) for x in allmm if x.get("kind") == "float-goal"}
+        promoted = set()
+        for x in allmm:
+            key = (x.get("label"), json.dumps(x.get("values"), sort_keys=True, default=str))
+            if key in both and key not in promoted and not match_known(known, prop, r["case"], x.get("label", "")):
+                # the clause fails on a concrete input both in exact rational arithmetic (patched code) and on the real code: a replayable counterexample
+                promoted.add(key)
+                rec = dict(property=prop, case=r["case"], body=r["body"], kwargs=r["kwargs_raw"], label=x["label"], values=x["values"])
+                h = hashlib.sha1(json.dumps(rec, sort_keys=True, default=str).encode()).hexdigest()[:10]
+                path = os.path.join(ROOT, "replays", f"{prop}-{h}.json")
+                json.dump(rec, open(path, "w"), indent=1, default=str)
+                ok, msg = replay_record(rec)
+                replayed_box[0] += 1
+                if ok:
+                    violations.append((path, r["case"], rec["label"], msg + " (sampled input; fails in exact arithmetic and on the real code)"))
+        for x in allmm:
+            if (x.get("label"), json.dumps(x.get("values"), sort_keys=True, default=str)) in promoted and violations:
+                continue
             if x.get("kind") == "exception-differs" and any(t in x.get("real", "") for t in ("did not converge", "failed. Try another solver")):
                 # the compiled solver gave up numerically on a sampled instance that is feasible in exact arithmetic: solver accuracy is outside every claim
                 numeric_notes.append(dict(case=r["case"], note=x.get("real", "")[:160]))
@@ -306,7 +325,7 @@ def main(argv=None):
             obligations=tot("goals"), discharged=tot("unsat"), sat=tot("sat"), unknown=tot("unknown"),
             paths=tot("paths"), reachable_paths=tot("reachable"), exception_paths=tot("exc_paths"),
             cases=[dict(case=r["case"], paths=r["paths"], goals=r["goals"], unsat=r["unsat"], sat=r["sat"], unknown=r["unknown"],
-                        solver_s=r["solver_s"], wall_s=r.get("wall_s"), tags=r["tags"],
+                        solver_s=r["solver_s"], wall_s=r.get("wall_s"), tags=r["tags"], truncated_paths_left=r.get("truncated_paths_left", 0),
                         validate={k: (v if k != "mismatch" else len(v)) for k, v in r.get("validate", {}).items()})
                    for r in results],
             solver_s=round(tot("solver_s"), 2), sat_replayed=replayed,
